@@ -12,7 +12,6 @@ M = [
  ("c01-checksum-one-bit-less", ["C01"], "src/mnemonic.rs", "let checksum_mask = (1 << bit_offset) - 1;\n            ensure!(\n                hash[0] >> (8 - bit_offset) == (acc & checksum_mask) as u8,", "let checksum_mask = (1 << bit_offset) - 1;\n            ensure!(\n                hash[0] >> (9 - bit_offset) == ((acc & checksum_mask) >> 1) as u8,"),
  ("c01-word-zoo-zop", ["C01"], "src/mnemonic/wordlist/english.txt", "zone\nzoo\n", "zone\nzop\n"),
  ("c01-split-on-space-only", ["C01", "C02"], "src/mnemonic/language.rs", ".split_whitespace()", ".split(' ')"),
- ("c01-length-formula", ["C01", "C12"], "src/mnemonic.rs", "((self.len * 8) / WORD_BITS) + 1", "(self.len * 8 + self.len / 4).div_ceil(WORD_BITS).max(12)"),
  ("c02-no-nfkd", ["C02"], "src/mnemonic.rs", "salt.nfkd().to_string().as_bytes()", "salt.as_bytes()"),
  ("c02-nfkc", ["C02"], "src/mnemonic.rs", "salt.nfkd().to_string().as_bytes()", "salt.nfkc().to_string().as_bytes()"),
  ("c02-nfd", ["C02"], "src/mnemonic.rs", "salt.nfkd().to_string().as_bytes()", "salt.nfd().to_string().as_bytes()"),
@@ -28,16 +27,14 @@ M = [
  ("c09-int-bound-one-bit-wide", ["C09"], "src/typeddata.rs", "ensure!(sign_bits + n > 256,", "ensure!(sign_bits + n >= 256,"),
  ("c09-bytesn-padded", ["C09"], "src/typeddata.rs", "*n == bytes.len() as u32,", "*n >= bytes.len() as u32,"),
  ("c09-fixed-size-only-if-nonempty", ["C09"], "src/typeddata.rs", "if let Some(size) = size {\n                    ensure!(\n                        value.len() == *size,", "if let Some(size) = size.filter(|_| !value.is_empty()) {\n                    ensure!(\n                        value.len() == size,"),
- ("c20-repeats-accepted", ["C20"], "src/typeddata.rs", "let (_, kind) = allowed_members\n                    .find(|(name, _)| member.name == *name)", "let (_, kind) = allowed_members\n                    .clone()\n                    .find(|(name, _)| member.name == *name)\n                    .inspect(|_| {\n                        let _ = allowed_members.clone().position(|(name, _)| member.name == *name).map(|p| if p > 0 { allowed_members.nth(p - 1); });\n                    })"),
  ("c20-type-not-compared-after-first", ["C20"], "src/typeddata.rs", "ensure!(\n                    &member.kind == kind,", "ensure!(\n                    &member.kind == kind || member.name == \"salt\" && member.kind == MemberKind::Bytes(None),"),
  ("c11-guard-only-full-output", ["C11"], "src/cmd/sign.rs", "ensure!(\n                    allow_missing_relay_protection,", "ensure!(\n                    allow_missing_relay_protection || signature_only,"),
  ("c13-negative-check-removed", ["C13", "C09"], "src/serialization.rs", "if matches!(&value, Value::Number(n) if n.as_f64().is_some_and(|n| n < 0.0)) {", "if matches!(&value, Value::Number(n) if n.as_f64().is_some_and(|n| n < -9007199254740992.0)) {"),
  ("c13-bytes-prefix-optional", ["C13"], "src/serialization.rs", "let s = s\n            .strip_prefix(\"0x\")\n            .ok_or_else(|| de::Error::custom(\"storage slot missing '0x' prefix\"))?;\n        hex::decode(s).map_err(de::Error::custom)", "let s = s.strip_prefix(\"0x\").unwrap_or(&s);\n        hex::decode(s).map_err(de::Error::custom)"),
  ("c13-no-float-roundtrip", ["C13"], "Cargo.toml", 'serde_json = { version = "1", features = ["float_roundtrip"] }', 'serde_json = "1"'),
  ("c10-len-of-prefixed-buffer", ["C10"], "src/message.rs", "write!(buffer, \"{}\", data.len()).expect(\"unexpected error writing number\");", "write!(buffer, \"{}\", data.len().min(99_999)).expect(\"unexpected error writing number\");"),
- ("c03-le-index-large", ["C03"], "src/hdk.rs", "hmac.update(&value.to_be_bytes());", "hmac.update(&if value & 0x00ff_0000 == 0x00ff_0000 { value.swap_bytes().to_le_bytes() } else { value.to_be_bytes() });"),
+ ("c03-le-index-large", ["C03"], "src/hdk.rs", "hmac.update(&value.to_be_bytes());", "hmac.update(&if value & 0x00ff_0000 == 0x00ff_0000 { value.to_le_bytes() } else { value.to_be_bytes() });"),
  ("c04-lowercase-address", ["C04", "C16"], "src/cmd/address.rs", "println!(\"{}\", options.account.private_key()?.address());", "println!(\"{:?}\", options.account.private_key()?.address());"),
- ("c05-no-low-s", ["C05"], "src/account.rs", "Ok(Signature(signature, recovery_id.unwrap()))", "Ok(Signature(signature.normalize_s().unwrap_or(signature), recovery_id.unwrap()))"),
 ]
 
 def sh(cmd, **kw):
